@@ -970,7 +970,11 @@ end Yaqs.CheckerE2E
     `ExactBlocks`: no `decompose_theta` of the run discards anything (as `ExactSteps` in Part D); exact arithmetic.
   * *symmetric gates* — the conjugated branch multiplies by `conj(G)`, not `Gᴴ` (C04.21b, C04.35): for a gate of the SECOND
     circuit the theorems need `SymLR`: the stored 4×4 matrix of every long-range gate is symmetric.  C04.38 proves it of every
-    two-qubit gate of the library in both orientations (cx, cz, cp, swap, rxx, ryy, rzz). -/
+    two-qubit gate of the library in both orientations (cx, cz, cp, swap, rxx, ryy, rzz).
+  * *not covered here* — a totality statement for runs with long-range layers (the analogue of C04.33: that `iterateMpoLR` returns a
+    tensor list whenever one SVD result per split and one gate MPO per layer are supplied; the non-vacuity examples below exhibit such
+    runs, and C04.9 proves termination of the layer loop for all circuits); the accumulation of discarded weights over the splits when
+    truncation does occur (as in Part D: C04.17 bounds each single split). -/
 namespace Yaqs.CheckerLR
 open Matrix Yaqs.MpoConv Yaqs.MpoUpdate Yaqs.Verdict Yaqs.CheckerChain Yaqs.CheckerE2E Yaqs.Embed
 open scoped Kronecker
@@ -1346,6 +1350,10 @@ private theorem hA : ExHyp lrGateOf lrGateOf cA1 cA2 [czMpo] decsA := exHyps lrG
 private theorem hA' : ExHyp lrGateOf lrGateOf cA2 cA1 [czMpo] decsA' := exHyps lrGateOf lrGateOf cA2 cA1 bsA' [czMpo] decsA' evA' stA' ⟨czMpoOK gA rfl, trivial⟩ exA'_exact
 private theorem cA1_ok : LRCircuit 3 cA1 lrGateOf := lrCirc _ lrGateOf_ok _ (by decide)
 private theorem cA2_ok : LRCircuit 3 cA2 lrGateOf := lrCirc _ lrGateOf_ok _ (by decide)
+
+-- C04.37: the exact split `P₀ ⊗ 1 + P₁ ⊗ Z` of CZ with one identity tensor in between is the gate on the end sites of three sites
+example : chainMat 2 3 czMpo = embed2 2 3 0 2 (gateMat2 2 czT) ∧ GateMpoOK 2 (lrGateOf gA) gA czMpo :=
+  gate_mpo_is_gate_on_ends 2 2 1 czA czB (lrGateOf gA) gA ⟨rfl, rfl, rfl⟩ ⟨rfl, rfl, rfl⟩ czSplit rfl
 
 -- C04.35: the CZ gate MPO stacked on the identity chain, both branches
 example : chainMat 2 3 (lrMul false czMpo 0 (identityMpo 3 2)) = embed2 2 3 0 2 (gateMat2 2 czT) * chainMat 2 3 (identityMpo 3 2) ∧
